@@ -1,12 +1,15 @@
 CONSTANTS
   Dev = {}
-  RD = 1
-  MaxRetries = 1
+  TickMs = 100000
+  Confs = {}
   MaxDgrams = 0
   Faults = {}
-  MRT = 4
   MReqs = {1, 2}
   MaxConn = 4
+  MsConfs <- GMsConfsT
+  XConfs <- GXConfs
+  OpNames <- AllOps
+  TcOnly = FALSE
   Mode = "multi"
   MaxOps = 14
   PathMode = FALSE
